@@ -652,4 +652,40 @@ def run (e : Env) : List Op → Env
   | [] => e
   | op :: ops => run (step e op) ops
 
+/-! ## a simple command with temporary assignments, on every way it can end
+(interp.rs `execute_command` → commands.rs `SimpleCommand::execute_via_function` → `invoke_shell_function`, then
+`post_execute`) -/
+
+/-- how far `n1=v1 … cmd` gets.  `abortedBefore`: nothing of `cmd` runs and no function scope is entered — a
+redirection written on the call or attached to the function's definition cannot be set up, the command is not
+found, a builtin / external command fails without writing.  `abortedDuring ran`: the function was entered, `ran`
+are the operations its body performed before it stopped (a failing command, `return`, a fatal expansion error).
+`completed body`: the body ran to its end. -/
+inductive CallOutcome
+  | abortedBefore
+  | abortedDuring (ran : List Op)
+  | completed (body : List Op)
+  deriving Repr
+
+def CallOutcome.body : CallOutcome → List Op
+  | .abortedBefore => []
+  | .abortedDuring ran => ran
+  | .completed body => body
+
+/-- `invoke_shell_function`: `enter_function` pushes a Local scope, the body runs, `leave_function` pops it —
+on every path that entered. -/
+def Env.invokeFunction (e : Env) (body : List Op) : Env × Bool :=
+  (run (e.push .loc) body).pop .loc
+
+/-- `post_execute`: `pop_scope(Command)`; its error is discarded by the caller, here it is kept in the flag -/
+def postExecute (r : Env × Bool) : Env × Bool :=
+  let (e', ok') := r.1.pop .command
+  (e', r.2 && ok')
+
+/-- the whole simple command: command scope + prefix assignments, the command, `post_execute` -/
+def Env.callWithTemp (e : Env) (items : List (Str × Lit)) : CallOutcome → Env × Bool
+  | .abortedBefore => postExecute ((e.pushTemp items).1, true)
+  | .abortedDuring ran => postExecute ((e.pushTemp items).1.invokeFunction ran)
+  | .completed body => postExecute ((e.pushTemp items).1.invokeFunction body)
+
 end BrushVerif.Env
